@@ -25,6 +25,7 @@ type eexecVec struct {
 	Lead    []string      `json:"lead"`
 	Ws      string        `json:"ws"`
 	Blank   string        `json:"blank"`
+	EndWs   string        `json:"endws"`
 	P       int           `json:"p"`
 	psVector
 }
@@ -62,7 +63,7 @@ func hexNibble(c byte) byte {
 
 // renderPlain renders the section's tokens; raw data follows its readstring
 // after exactly one separator byte.
-func renderPlain(toks []model.Value) ([]byte, error) {
+func renderPlain(toks []model.Value, endws string) ([]byte, error) {
 	var out []byte
 	for i, t := range toks {
 		if t.T == "raw" {
@@ -80,7 +81,14 @@ func renderPlain(toks []model.Value) ([]byte, error) {
 		if i+1 < len(toks) {
 			out = append(out, ' ')
 		} else {
-			out = append(out, '\n')
+			switch endws {
+			case "cr":
+				out = append(out, '\r')
+			case "crlf":
+				out = append(out, '\r', '\n')
+			default:
+				out = append(out, '\n')
+			}
 		}
 	}
 	return out, nil
@@ -108,7 +116,7 @@ func renderEexec(v *eexecVec, rng *rand.Rand) ([]byte, error) {
 		sb.WriteString("\t \n")
 	}
 	out := []byte(sb.String())
-	plain, err := renderPlain(v.Plain)
+	plain, err := renderPlain(v.Plain, v.EndWs)
 	if err != nil {
 		return nil, err
 	}
